@@ -300,6 +300,9 @@ func (s *fsm13) prepare(ctx context.Context, conn Conn) (nextState State, err er
 
 func (s *fsm13) send(ctx context.Context, conn Conn) (State, error) {
 	defer s.received.release()
+	if vtrace.Enabled {
+		vtrace.Gate(s.cfg, "fsm.beforeSend")
+	}
 
 	result, err := conn.WritePackets(ctx, s.flights)
 	if err != nil {
@@ -339,6 +342,7 @@ func (s *fsm13) wait(ctx context.Context, conn Conn) (State, error) {
 				vtrace.Emit(s.cfg, "fsm.parsed", "client", s.state.IsClient, "flight", s.currentFlight.String(),
 					"next", transition.state.String(), "alert", false, "err", err != nil,
 					"interval", int64(s.retransmitInterval), "retransmit", s.retransmit)
+				vtrace.Gate(s.cfg, "fsm.afterParse")
 			}
 			if err != nil {
 				return StateErrored, err
